@@ -310,6 +310,22 @@ def gen_c02(rnd, n, thorough=False):
                     lines.append("drop %s" % name)
             cases.append({'id': 'c02-sweep%d-m%d' % (ratio, m), 'lines': lines,
                           'tags': {'layout': 'sweep%d' % ratio, 'levels': 2, 'method': m, 'xff': 'all', 'ops': {'exhaustive_subsets': nfile}}})
+    # a sparse batch that skips a whole coarser interval whose slot holds something else than the aggregate of its
+    # finer slots (it was written directly): only the coarser slots covering written points are recomputed
+    for j in range(3):
+        ratio = rnd.pick([2, 5, 6])
+        layout = [(1, 8 * ratio), (ratio, 12)] + ([(ratio * 4, 6)] if rnd.chance(0.5) else [])
+        m = rnd.pick(METHODS)
+        now = clock_in_domain(rnd, layout)
+        now = now - now % ratio + ratio - 1
+        base = now - now % ratio - 3 * ratio                      # four coarser intervals: base, base+ratio, ... up to the current one
+        dense = [(base + i, fbits(float(1 + i))) for i in range(4 * ratio)]
+        lines = [_create('f', layout, m, rnd.pick([0, 0x3e800000])), _many('f', 0, now, dense),
+                 _many('f', 1, now, [(base + ratio, fbits(999.0)), (base + 2 * ratio, fbits(888.0))]),
+                 _many('f', 0, now, [(base + rnd.randrange(ratio), fbits(50.0)), (base + 3 * ratio + rnd.randrange(ratio), fbits(60.0))])]
+        for a_ in range(len(layout)):
+            lines.append("fetch f %d %d %d %d" % (a_, now - layout[a_][0] * layout[a_][1], now, now))
+        cases.append({'id': 'c02-skip-%d' % j, 'lines': lines, 'tags': {'layout': 'skip%d' % ratio, 'levels': len(layout), 'method': m, 'xff': 'low', 'ops': {'sparse_batch_skipping_interval': 1}}})
     cases += _shared_cases(rnd, 'c02', False)
     return cases
 
